@@ -310,7 +310,7 @@ def wall_frame(rng):
 
 
 def wall_shape(rng):
-    m = rng.choice(['rect', 'L', 'gable', 'convex', 'trapezoid', 'holed', 'holed_convex'])
+    m = rng.choice(['rect', 'L', 'L', 'L', 'gable', 'convex', 'trapezoid', 'holed', 'holed_convex'])
     if m == 'rect':
         w, h = G.dy(rng.uniform(1, 12)), G.dy(rng.uniform(1, 6))
         return m, [(0.0, 0.0), (w, 0.0), (w, h), (0.0, h)], []
